@@ -180,7 +180,7 @@ def rule_set_algebra(ctx):
                 return None
             a_empty = g(lambda a: a[0] == 'cmp' and a[1] == '==' and a[2] == ('attr', A, 'size') and a[3] == const(0))
             b_empty = g(lambda a: a[0] == 'cmp' and a[1] == '==' and a[2] == ('attr', B, 'size') and a[3] == const(0))
-            equal = g(lambda a: a[0] == 'call' and T.dotted(a[1]) == 'np.all' and a[2] and a[2][0] in (('cmp', '==', A, B), ('cmp', '==', B, A)))
+            equal = g(lambda a: a[0] == 'call' and T.dotted(a[1]) == 'np.all' and a[2] and a[2][0] in (T.mkcmp('==', A, B), T.mkcmp('==', B, A)))
             res = None
             label = None
             if v[0] == 'call' and T.call_name(v) == 'copy' and T.call_receiver(v) in (SA, SB):
